@@ -18,11 +18,13 @@ func (s *Store) maxSizeEnforcer(maxSize int64) {
 			if !ok {
 				return
 			}
-			// Add message to all.
+			// Add message to all, unless it was already removed again (see below).
 			m := md.msg
-			el := all.PushBack(m)
-			m.el = el
-			curSize += int64(m.Size())
+			if !m.gone {
+				el := all.PushBack(m)
+				m.el = el
+				curSize += int64(m.Size())
+			}
 			for curSize > maxSize {
 				// Remove oldest message.
 				el := all.Front()
@@ -39,8 +41,11 @@ func (s *Store) maxSizeEnforcer(maxSize int64) {
 			}
 			// Remove message from all.
 			m := md.msg
-			el := all.Remove(m.el)
-			if el != nil {
+			if m.el == nil {
+				// A concurrent removal won the race against the delivery's registration: the
+				// message is not in the list yet, make sure it never gets there.
+				m.gone = true
+			} else if el := all.Remove(m.el); el != nil {
 				curSize -= int64(m.Size())
 			}
 			close(md.done)
